@@ -266,6 +266,16 @@ class Ctx:
             'wall_s': round(time.time() - self.t0, 2),
             'violations': len(unknown_viol),
         }
+        ev = json.loads(json.dumps(ev, default=str))
+        try:
+            import jsonschema
+            sp = os.environ.get('VERIF_EVIDENCE_SCHEMA', '/root/.vp/EVIDENCE.schema.json')
+            if os.path.exists(sp):
+                jsonschema.validate(ev, json.load(open(sp)))
+        except ImportError:
+            pass
+        except Exception as e:   # noqa  (schema violation: the evidence file would be rejected; make it visible instead of silently writing it)
+            self.inconclusive.append('evidence does not match the schema: %s' % str(e).split('\n')[0][:300])
         os.makedirs(EVIDENCE_DIR, exist_ok=True)
         with open(os.path.join(EVIDENCE_DIR, self.prop_id + '.json'), 'w') as f:
             json.dump(ev, f, indent=1, default=str)
